@@ -368,4 +368,57 @@ Proof.
   unfold propagate_to; simpl. f_equal. rewrite map_map. apply map_ext. intros V.
   rewrite !shear_map, map_map. apply map_ext. intros p. unfold shearp; simpl. apply pair_eq; ring.
 Qed.
+
+(* ---- FrameSequence.__getitem__(distance) after a cascade: exactly the choppers up to that distance *)
+Lemma getitem_go r d : forall (L : list (chopper O)) fr fs Tr,
+  Inv r Tr fr -> StronglySorted dle L -> cascade_go O fr L = Some fs -> fdist fr <= d ->
+  exists f Tr', frame_before O d fs (Some fr) = Some f /\ Inv r Tr' f /\
+    (forall n, Tr' n <-> Tr n /\ forall c, In c L -> cdist c <= d -> passes al (spec_of c) n).
+Proof.
+  induction L as [|c L IH]; simpl; intros fr fs Tr I S E Hd.
+  - inversion E; subst fs. exists fr, Tr. simpl. split; auto. split; auto. intros n; split; [intros; split; auto; intros c [] | tauto].
+  - destruct (chop_frame O c fr) as [f1|] eqn:Ec; [|discriminate].
+    destruct (cascade_go O f1 L) as [fs'|] eqn:Eg; [|discriminate]. inversion E; subst fs.
+    inversion S; subst.
+    pose proof (inv_chop r Tr c fr f1 I Ec) as I1.
+    destruct (chop_frame_some _ _ _ Ec) as [_ Ef1].
+    assert (Hf1 : fdist f1 = cdist c) by (rewrite Ef1; reflexivity).
+    simpl frame_before. rewrite Hf1. simpl. unfold Rltb. destruct (Rlt_dec d (cdist c)) as [Hlt | Hge].
+    + exists fr, Tr. split; auto. split; auto. intros n; split; [|tauto]. intros Ht. split; auto.
+      intros c' [<- | Hc'] Hle; [lra|]. rewrite Forall_forall in H2. specialize (H2 c' Hc'). unfold dle in H2. lra.
+    + destruct (IH f1 fs' _ I1 H1 Eg) as (f & Tr' & Efb & If & HTr); [lra|].
+      exists f, Tr'. split; auto. split; auto. intros n. rewrite HTr. split.
+      * intros [[Ht Hp] Hall]. split; auto. intros c' [<- | Hc'] Hle; auto.
+      * intros [Ht Hall]. split; [split; auto; apply Hall; [left; reflexivity | lra]|].
+        intros c' Hc' Hle. apply Hall; auto. right; exact Hc'.
+Qed.
+
+Theorem getitem_reach t0 t1 w0 w1 (cs : list (chopper O)) s d : t0 <= t1 -> w0 <= w1 ->
+  seq_chop O cs (source O t0 t1 w0 w1) = Some s -> 0 <= d ->
+  exists fr, getitem O d s = Some fr /\
+    forall p, in_frame fr p <->
+              Reach al (src_rect t0 t1 w0 w1)
+                    (map spec_of (filter (fun c : chopper O => Rleb (cdist c) d) cs)) d p.
+Proof.
+  intros Ht Hw E Hd. unfold seq_chop in E.
+  destruct (cascade_go O (last_frame O (source O t0 t1 w0 w1)) (sort O cs)) as [fs|] eqn:Eg; [|discriminate].
+  inversion E; subst s.
+  pose proof (inv_source t0 t1 w0 w1 Ht Hw) as I0.
+  destruct (getitem_go (src_rect t0 t1 w0 w1) d (sort O cs) _ fs _ I0 (sort_sorted cs) Eg) as (f & Tr' & Efb & If & HTr); [simpl; lra|].
+  assert (Eget : getitem O d (source O t0 t1 w0 w1 ++ fs) = Some (propagate_to O d f)).
+  { unfold getitem. simpl. unfold Rltb. destruct (Rlt_dec d 0); [lra|].
+    simpl in Efb. rewrite Efb. reflexivity. }
+  exists (propagate_to O d f). split; auto. intros p.
+  destruct (inv_propagate _ _ _ d If) as [_ H]. rewrite H. simpl fdist.
+  unfold ReachP, Reach. split; intros (n & Hr & Htr & HE); exists n; (split; [exact Hr | split; [|exact HE]]).
+  - apply HTr in Htr. destruct Htr as [_ Hall]. unfold transmitted. apply Forall_forall. intros sc0 Hsc.
+    apply in_map_iff in Hsc. destruct Hsc as (c & <- & Hc). apply filter_In in Hc. destruct Hc as [Hc Hle].
+    apply Hall.
+    + eapply Permutation_in; [apply Permutation_sym, sort_perm | exact Hc].
+    + unfold Rleb in Hle. destruct (Rle_dec (cdist c) d); [auto | discriminate].
+  - apply HTr. split; auto. intros c Hc Hle. unfold transmitted in Htr. rewrite Forall_forall in Htr.
+    apply Htr. apply in_map. apply filter_In. split.
+    + eapply Permutation_in; [apply sort_perm | exact Hc].
+    + apply Rleb_true; auto.
+Qed.
 End CascR.
